@@ -202,9 +202,13 @@ func (s *simscreen) drawCell(x, y int) int {
 
 		l := utf8.EncodeRune(ubuf, r)
 
-		nout, _, _ = s.encoder.Transform(lbuf, ubuf[:l], true)
+		// (each rune on its own, as the terminal screen does: no shift
+		// state carried over from the cell drawn before)
+		s.encoder.Reset()
+		var err error
+		nout, _, err = s.encoder.Transform(lbuf, ubuf[:l], true)
 
-		if nout == 0 || lbuf[0] == '\x1a' {
+		if err != nil || nout == 0 || lbuf[0] == '\x1a' {
 
 			// skip combining
 
